@@ -63,7 +63,7 @@ Example C18_partial_nonvacuous :
             /\ p_index (st_p s) = p_state (st_p s) /\ p_index (st_p s) = 2
             /\ st_cur s = Some (2, SCommitted 1)
             /\ recover 2 (crash s) = ROk 2 (mkP 2 2 2) [(0, 2); (1, 2)].
-Proof. eexists. repeat split; vm_compute; reflexivity. Qed.
+Proof. eexists. split; [vm_compute; reflexivity|]. vm_compute. repeat split; reflexivity. Qed.
 
 (* The unguarded statement is false: a crash right after the index update of one block makes the restart panic
    (vm.chain is nil in extractLatestOutputBlock), a crash with two blocks indexed ahead of the state makes it fail. *)
@@ -75,8 +75,8 @@ Theorem C18_refuted :
   /\ ~ (forall ns tr s, run ns (init ns) tr = Some s -> recovery_correct ns s).
 Proof.
   split; [|split].
-  - exists wit_plus1. eexists. repeat split; vm_compute; reflexivity.
-  - exists wit_plus2. eexists. repeat split; vm_compute; reflexivity.
+  - exists wit_plus1. eexists. split; [vm_compute; reflexivity|]. vm_compute. split; reflexivity.
+  - exists wit_plus2. eexists. split; [vm_compute; reflexivity|]. vm_compute. split; reflexivity.
   - intros H. destruct not_recovery_correct_plus1 as [s [Hrun Hnot]]. exact (Hnot (H 2 wit_plus1 s Hrun)).
 Qed.
 Print Assumptions C18_refuted.
